@@ -642,10 +642,11 @@ static bool judgeAssembler(Ctx& c, AsmRun& R, Assembler& A, const std::string& a
         // attribute: a start outside its range that is handed back untouched (short circuit / revert) vs an optimizer result
         bool untouched = false;
         for (auto& b : P.bounds) { int ix = S.q0(b.node) + b.qi; if (!P.fixedQ[ix] && !P.prescQ[ix] && (qI[ix] < b.lo || qI[ix] > b.hi) && bitEq(qI[ix], qBeforeI[ix])) untouched = true; }
-        c.check("asm-bounds:" + apiK + (untouched ? ":start-outside-range-returned-unchanged" : e.nErr > 0 ? ":ipopt" : ":lbfgsb"), std::max(w, 0.0), 0.0, [&] {
+        bool okB = c.check("asm-bounds:" + apiK + (untouched ? ":start-outside-range-returned-unchanged" : e.nErr > 0 ? ":ipopt" : ":lbfgsb"), std::max(w, 0.0), 0.0, [&] {
             Json bj = Json::arr();
             for (auto& b : P.bounds) { int ix = S.q0(b.node) + b.qi; bj.push(Json::obj().set("qIndex", ix).set("lo", b.lo).set("hi", b.hi).set("q", qI[ix]).set("qBefore", qBeforeI[ix]).set("fixed", (int)P.fixedQ[ix]).set("presc", (int)P.prescQ[ix])); }
-            return W(&e).set("excess", w).set("bounds", bj).set("swallowedThrows", throwsDuringCall).set("lastThrow", std::string(g_lastThrow)); });
+            return W(&e).set("excess", w).set("bounds", bj); });
+        if (!okB && untouched) return false;     // later frames would only repeat it
     }
     // ---- 6. reported goal == goal of the returned configuration
     {
